@@ -76,6 +76,7 @@ Inductive errkind :=
 | ENoPrevSettled        (* ... InError, no previous LER in the row, and no row at height-1 *)
 | EPrevNotSettled       (* ... row at height-1 is not settled *)
 | EUnknownStatus
+| ERetryFromMismatch    (* verifyRetryCertStartingBlock: retry certificate fromBlock != last sent certificate fromBlock *)
 | EOther.               (* anything else the implementation may report; never produced by the model *)
 Inductive result (A : Type) := Ok (a : A) | Err (e : errkind).
 Arguments Ok {A} a. Arguments Err {A} e.
@@ -355,13 +356,25 @@ Definition next_height_ler (cfg : config) (st : store) (l : option row) : result
       else Err EUnknownStatus
   end.
 
-(* (height, previous LER, first block) of the next certificate, or why none can be built now *)
+(* verifyRetryCertStartingBlock (VerifyBuildParams, called by both flows before BuildCertificate):
+   IsARetry = RetryCount > 0 && LastSentCertificate != nil; RetryCount > 0 exactly when the last row is InError *)
+Definition retry_from_mismatch (l : option row) (from : N) : bool :=
+  match l with
+  | Some r => is_in_error (r_status r) && negb (from =? r_from r)
+  | None => false
+  end.
+
+(* (height, previous LER, first block) of the next certificate, or why none can be built now; same order as the
+   flows: first block (GetCertificateBuildParamsInternal), VerifyBuildParams, then height and previous LER
+   (BuildCertificate) *)
 Definition next_params (cfg : config) (st : store) : result (N * N * N) :=
   let l := last_sent st in
-  match next_height_ler cfg st l with
-  | Err e => Err e
-  | Ok (h, ler) => Ok (h, ler, last_sent_block cfg l + 1)
-  end.
+  let from := last_sent_block cfg l + 1 in
+  if retry_from_mismatch l from then Err ERetryFromMismatch
+  else match next_height_ler cfg st l with
+       | Err e => Err e
+       | Ok (h, ler) => Ok (h, ler, from)
+       end.
 
 (* ------------------------------------------------------------------------------------------ *)
 (* protocol states and crash points (statement of recovery_refines_nocrash)                      *)
@@ -448,10 +461,12 @@ Definition next_of_row (cfg : config) (c : row) : result (N * N * N) :=
   match r_status c with
   | Settled => Ok (r_height c + 1, r_new_ler c, r_to c + 1)
   | InError =>
-      match r_prev_ler c with
-      | Some x => Ok (r_height c, x, (if 0 <? r_from c then r_from c - 1 else r_to c) + 1)
-      | None => Err ENoPrevSettled
-      end
+      let from := (if 0 <? r_from c then r_from c - 1 else r_to c) + 1 in
+      if negb (from =? r_from c) then Err ERetryFromMismatch
+      else match r_prev_ler c with
+           | Some x => Ok (r_height c, x, from)
+           | None => Err ENoPrevSettled
+           end
   | _ => Err ENotClosed
   end.
 
